@@ -3,7 +3,9 @@
 (* program of NameGen.tla (names and row counts of its constraints, in order)    *)
 (* and the names of the rows of the compiled linear model, in order (the last    *)
 (* row is the unnamed `x + y <= 9` every program ends with).  Accepted iff        *)
-(*  - every constraint compiled to as many rows as its kind says, in order;       *)
+(*  - (rows are mapped to constraints by position when every constraint compiled  *)
+(*    to as many rows as its kind says; otherwise only the first two rules and    *)
+(*    "derived from SOME user-written name" are judged)                           *)
 (*  - named rows have pairwise different names; rows of unnamed constraints have  *)
 (*    no name and rows of named constraints have one;                            *)
 (*  - the first row of the first constraint that carries a user-written name N    *)
@@ -32,7 +34,11 @@ Problems(ev) ==
    LET If(c, w) == IF c THEN {w} ELSE {}
        n == SumEmits(ev.cons, 1)
        rows == ev.rownames
-   IN  IF Len(rows) # n + 1 THEN {"the constraints compiled to another number of rows than their kinds say"}
+   IN  \* (another lowering may compile a kind to another number of rows: rows can then not be mapped to
+       \* constraints by position, and only the rules that need no mapping are judged)
+       IF Len(rows) # n + 1
+       THEN If(\E i, j \in 1..Len(rows) : i < j /\ rows[i] # "" /\ rows[i] = rows[j], "two rows have the same name")
+            \cup If(\E k \in 1..Len(rows) : rows[k] # "" /\ ~\E nm \in UserNames(ev) : Derived(rows[k], nm), "a row name is not derived from a user-written name")
        ELSE If(\E i, j \in 1..n : i < j /\ rows[i] # "" /\ rows[i] = rows[j], "two rows have the same name")
             \cup If(\E k \in 1..n : (ev.cons[Owner(ev, k)].name = "") # (rows[k] = ""), "a row of an unnamed constraint has a name, or a row of a named one has none")
             \cup If(\E nm \in UserNames(ev) : FirstEmitter(ev, nm) # 0 /\ rows[FirstRowOf(ev, FirstEmitter(ev, nm))] # nm,
@@ -45,7 +51,7 @@ Problems(ev) ==
 Check(ev) ==
    IF ev.out # "ok" THEN PrintT(<<"REJECT", "C08", ev.id, "a program of named rows does not compile: " \o ev.out, "">>)
    ELSE LET pb == Problems(ev) IN
-        IF pb = {} THEN PrintT(<<"STAT", ev.id, Len(ev.cons), Len(ev.rownames), Cardinality({k \in 1..Len(ev.rownames) : ev.rownames[k] \notin UserNames(ev) \cup {""}})>>)
+        IF pb = {} THEN PrintT(<<"STAT", ev.id, Len(ev.cons), IF Len(ev.rownames) = SumEmits(ev.cons, 1) + 1 THEN Len(ev.rownames) ELSE 0, Cardinality({k \in 1..Len(ev.rownames) : ev.rownames[k] \notin UserNames(ev) \cup {""}})>>)
         ELSE PrintT(<<"REJECT", "C08", ev.id, CHOOSE x \in pb : TRUE, ToJson(ev.rownames)>>)
 Init == l = Start
 Next == l <= Len(Rec) /\ Check(Rec[l]) /\ l' = l + 1
